@@ -68,7 +68,8 @@ package yqlib
 //@   ensures @value implies(result1 == nil, result0 == numOf(tag, value))
 
 //@ func (sortableNodeArray).compare
-//@   props C15 C11
+//@   props C15 C11 C08
+//@   modifies \nothing
 //@   let lt = effTag(lhs.Tag, lhs.Value)
 //@   let rt = effTag(rhs.Tag, rhs.Value)
 //@   let core = strings.HasPrefix(lhs.Tag, "!!") && strings.HasPrefix(rhs.Tag, "!!") && lhs.Kind == ScalarNode && rhs.Kind == ScalarNode
@@ -285,7 +286,7 @@ package yqlib
 //@   requires n != nil && rawKey != nil && rawValue != nil
 //@   modifies n.Content
 //@   ensures @appended len(n.Content) == n0 + 2 && forall(i, 0, n0, n.Content[i] == old(n.Content[i])) && n.Content[n0] == result0 && n.Content[n0+1] == result1 && freshSlice(n.Content)
-//@   ensures @key result0 != nil && fresh(result0) && result0.IsMapKey && result0.Parent == n && result0.Value == old(rawKey.Value) && result0.Tag == old(rawKey.Tag)
+//@   ensures @key {C02,C03,C07,C16,C04,C11} result0 != nil && fresh(result0) && result0.IsMapKey && result0.Parent == n && result0.Value == old(rawKey.Value) && result0.Tag == old(rawKey.Tag) && result0.Kind == old(rawKey.Kind) && len(result0.Content) == len(old(rawKey.Content))
 //@   ensures @value result1 != nil && fresh(result1) && !result1.IsMapKey && result1.Parent == n && result1.Key == result0 && sameScalarAttrs(result1, rawValue)
 
 //@ func (*CandidateNode).AddChildren
@@ -363,11 +364,11 @@ package yqlib
 //@   ensures @defines-rootFileIndex {ASSUMED} result == rootFileIndex(n)
 
 //@ func (*CandidateNode).getParsedKey
-//@   props C16 C11
+//@   props C16 C11 C03
 //@   requires n != nil
 //@   ensures @map-key implies(n.IsMapKey, result == iface(n.Value))
 //@   ensures @no-key (result == nil) == (!n.IsMapKey && n.Key == nil)
-//@   ensures @string-key implies(!n.IsMapKey && n.Key != nil && n.Key.Tag == "!!str", result == iface(n.Key.Value))
+//@   ensures @string-key {C16,C03} implies(!n.IsMapKey && n.Key != nil && n.Key.Tag == "!!str", result == iface(n.Key.Value))
 //@   ensures @index implies(!n.IsMapKey && n.Key != nil && n.Key.Tag != "!!str" && intOk(n.Key.Value), result == iface(intOf(n.Key.Value)))
 
 //@ func (*CandidateNode).GetPath
@@ -560,12 +561,12 @@ package yqlib
 //@   ensures @kind-change-clears implies(old(n.Kind) != old(other.Kind), n.Value == "" && len(n.Content) == 0)
 
 //@ func (*CandidateNode).UpdateFrom
-//@   props C02 C07 C11
+//@   props C02 C07 C11 C04
 //@   requires n != nil && other != nil
 //@   assume kidsOK(other)
 //@   modifies n.Content, n.Value, n.Kind, n.Tag, n.Alias, n.Anchor, n.Style, n.FootComment, n.HeadComment, n.LineComment
 //@   ensures @self-assign-is-noop {C02} implies(n == other, n.Kind == old(n.Kind) && n.Value == old(n.Value) && n.Content == old(n.Content) && n.Tag == old(n.Tag) && n.Style == old(n.Style) && n.Anchor == old(n.Anchor) && n.HeadComment == old(n.HeadComment) && n.LineComment == old(n.LineComment) && n.FootComment == old(n.FootComment))
-//@   ensures @put-get {C02} implies(n != other, n.Kind == old(other.Kind) && n.Value == old(other.Value) && len(n.Content) == len(old(other.Content)))
+//@   ensures @put-get {C02,C04} implies(n != other, n.Kind == old(other.Kind) && n.Value == old(other.Value) && len(n.Content) == len(old(other.Content)))
 //@   ensures @children-are-fresh-copies implies(n != other, forall(i, 0, len(n.Content), n.Content[i] != nil && fresh(n.Content[i]) && n.Content[i].Parent == n))
 //@   ensures @custom-tag-kept implies(n != other, n.Tag == ite(prefs.ClobberCustomTags || strings.HasPrefix(old(n.Tag), "!!") || old(n.Tag) == "", old(other.Tag), old(n.Tag)))
 //@   ensures @anchor {C07} implies(n != other, n.Anchor == ite(prefs.DontOverWriteAnchor, old(n.Anchor), old(other.Anchor)))
@@ -827,7 +828,7 @@ package yqlib
 //@   at printNode: assert @every-node-is-preceded-by-its-own-leading-content {C18} arg1 == mappedDoc && calls(PrintLeadingContent) == calls(printNode) + 1
 //@   loop 1:
 //@     invariant @leading-content-told-once-per-node {C18} calls(PrintLeadingContent) == calls(printNode)
-//@     invariant @what-is-printed-was-exploded-for-an-encoder-that-cannot-handle-aliases {C13} calls(CanHandleAliases) == 1 && implies(!resultOf(CanHandleAliases), calls(GetMatchingNodes) == 1)
+//@     invariant @what-is-printed-was-exploded-for-an-encoder-that-cannot-handle-aliases {C13,C06} calls(CanHandleAliases) == 1 && implies(!resultOf(CanHandleAliases), calls(GetMatchingNodes) == 1)
 //@     invariant @nodes nodeList(matchingNodes)
 //@     invariant @never-resets {C19} implies(old(p.printedMatches), p.printedMatches)
 //@     invariant @position (el == nil && iter() == len(matchingNodes)) || (el != nil && elList(el) == matchingNodes && elIdx(el) == iter())
@@ -2089,3 +2090,61 @@ package yqlib
 //@   props C17 C11
 //@   ensures @a-root-key-gives-a-name {C17} implies(cookedPath == "", shellName(result))
 //@   ensures @appending-to-a-name-gives-a-name {C17} implies(shellName(cookedPath), shellName(result))
+
+// utils.go: closing the appendix reader on the way out of a command does not touch the command's flags
+// (checked on the call graph; cmd's -e clause reads the flag at the return)
+//@ func SafelyCloseReader
+//@   trusted
+//@   keeps var.cmd.exitStatus
+
+// lexer_participle.go: `parent` and `parent(N)` are two spellings of one operator: after either of them a path
+// or a bracket may follow directly (`parent(2).name` means `parent(2) | .name`, as `parent.name` does) — C09:
+// writing the explicit pipe or redundant parentheses does not change what an expression means
+//@ func parentWithLevel$1
+//@   props C09
+//@   nosafety
+//@   nopre
+//@   noframe
+//@   ensures @a-path-may-follow-directly {C09} implies(result1 == nil, result0 != nil && result0.TokenType == operationToken && result0.CheckForPostTraverse && result0.Operation != nil && result0.Operation.OperationType == getParentOpType)
+
+//@ func parentWithDefaultLevel$1
+//@   props C09
+//@   nosafety
+//@   nopre
+//@   noframe
+//@   ensures @a-path-may-follow-directly {C09} implies(result1 == nil, result0 != nil && result0.TokenType == operationToken && result0.CheckForPostTraverse && result0.Operation != nil && result0.Operation.OperationType == getParentOpType)
+
+// operator_traverse_path.go: a path element applied to an alias is applied to the node the alias stands for,
+// in the very context of the read (C13: an alias stands for its anchored node — whatever the mode of the read;
+// C02: a path through an alias creates what is missing behind it like any other path); applied to a map it is
+// the lookup of that key in that map
+//@ func traverse
+//@   props C13 C01 C02
+//@   nosafety
+//@   nopre
+//@   noframe
+//@   overlay
+//@   at traverse: assert @the-target-is-read-in-the-same-context {C13,C02} arg0 == context && arg1 == old(matchingNode).Alias && arg2 == operation
+//@   at traverseMap: assert @the-key-is-looked-up-in-the-map-itself {C01} arg0 == context && arg1 == old(matchingNode) && !arg4
+//@   at return: assert @an-alias-is-read-as-its-target {C13,C01} implies(old(matchingNode.Kind) == AliasNode && old(matchingNode.Alias) != nil && old(matchingNode.Tag) != "!!null", calls(traverse) == 1 && result0 == resultOf(traverse) && result1 == nil || calls(traverse) == 1 && result1 != nil)
+//@   at return: assert @a-map-is-read-by-key {C01} implies(old(matchingNode.Kind) == MappingNode && old(matchingNode.Tag) != "!!null", calls(traverseMap) == 1)
+
+//@ func traverseArrayIndices
+//@   props C13 C01 C02
+//@   nosafety
+//@   nopre
+//@   noframe
+//@   overlay
+//@   at traverseArrayIndices: assert @the-target-is-read-in-the-same-context {C13,C02} arg0 == context && arg1 == old(matchingNode).Alias && arg2 == indicesToTraverse && arg3 == prefs
+//@   at traverseArrayWithIndices: assert @the-sequence-itself-is-indexed {C01} arg0 == old(matchingNode) && arg1 == indicesToTraverse && arg2 == prefs
+//@   at traverseMapWithIndices: assert @the-map-itself-is-read {C01} arg0 == context && arg1 == old(matchingNode) && arg2 == indicesToTraverse && arg3 == prefs
+//@   at return: assert @an-alias-is-read-as-its-target {C13,C01} implies(old(matchingNode.Kind) == AliasNode && old(matchingNode.Alias) != nil && old(matchingNode.Tag) != "!!null", calls(traverseArrayIndices) == 1)
+
+// encoder_xml.go: the XML encoder remembers the leading comment of the document it is about to print — of that
+// document, whatever an earlier one had (C18: what is printed for a document does not depend on the documents
+// printed before it with the same encoder)
+//@ func (*xmlEncoder).PrintLeadingContent
+//@   props C18 C11
+//@   requires e != nil
+//@   modifies e.leadingContent
+//@   ensures @the-comment-of-this-document-only {C18} e.leadingContent == content && result == nil
